@@ -2,8 +2,8 @@
    (Mask/Print.v, the printer the harness uses), and the tokenizer reads them back. *)
 From Coq Require Import List Bool ZArith.
 From Coq.Strings Require Import Byte.
-From Verif Require Import Base.Bytes Mask.Path Mask.Desc Mask.Trie Mask.Spec Mask.Print Mask.PrintFacts
-     Mask.TrieFacts Mask.C14Facts Mask.AllFacts Mask.PimFacts.
+From Verif Require Import Base.Bytes Mask.Path Mask.Desc Mask.Trie Mask.Spec Mask.Json Mask.TrieFacts Mask.C14Facts
+     Mask.JsonFacts Mask.AllFacts Mask.PimFacts Mask.Print Mask.PrintFacts.
 Import ListNotations.
 
 Lemma well_typed_wf env d ps : well_typed env d ps = true -> forallb wf_path ps = true.
@@ -45,4 +45,32 @@ Proof.
   eapply (path_in_mask_sound env d black (map print_path ps) ps gs m p g); eauto.
   - apply tokenize_print_paths. apply (well_typed_wf _ _ _ Hw).
   - apply tokenize_print_path. exact Hwf.
+Qed.
+
+(* the JSON round trip and the independence of order / grouping, on printed path strings *)
+Theorem json_roundtrip_strings env d black ps gs m :
+  well_typed env d ps = true -> elab_all env d ps = Some gs -> no_conflict gs = true -> gs <> [] ->
+  forallb (json_ok (switch_ft env d)) gs = true ->
+  new_mask env d black (map print_path ps) = Ok m ->
+  exists m', of_json (to_json m) = Ok m' /\
+    (forall q, observe (Some m') q = observe (Some m) q) /\
+    (forall q, walk (Some m') q = walk (Some m) q) /\
+    to_json m' = to_json m.
+Proof.
+  intros Hw He Hn Hne Hj Hm. eapply json_roundtrip; eauto. apply tokenize_print_paths. apply (well_typed_wf _ _ _ Hw).
+Qed.
+
+Theorem order_irrelevant_strings env d black ps gs m ps' gs' :
+  well_typed env d ps = true -> well_typed env d ps' = true ->
+  elab_all env d ps = Some gs -> elab_all env d ps' = Some gs' ->
+  in_domain black gs = true -> in_domain black gs' = true ->
+  same_set (path_set gs) (path_set gs') = true ->
+  new_mask env d black (map print_path ps) = Ok m ->
+  exists m', new_mask env d black (map print_path ps') = Ok m' /\ forall q, walk (Some m) q = walk (Some m') q.
+Proof.
+  intros Hw Hw' He He' Hd Hd' Hs Hm.
+  eapply (order_irrelevant env d black (map print_path ps) ps gs m (map print_path ps') ps' gs'); eauto.
+  - apply tokenize_print_paths. apply (well_typed_wf _ _ _ Hw).
+  - apply tokenize_print_paths. apply (well_typed_wf _ _ _ Hw').
+  - apply same_set_in. exact Hs.
 Qed.
